@@ -80,7 +80,7 @@ class DocGen:
     def text(self):
         if self.p.get('tokens'):
             self.ntok = getattr(self, 'ntok', 0) + 1
-            return f'\u00ab{self.ntok}\u00bb' + self.r.choice(['', '', ' ', 'x', '&', '<b>', ' y '])
+            return f'\u00ab{self.ntok}\u00bb' + self.r.choice(['', '', ' ', 'x', '&', '<b>', ' y ', '&amp;', '&lt;b&gt;', '&#38;', 'T&T;', '>', '"q"', '&nbsp;x', 'a&'])
         pool = TEXTS_PLAIN + (TEXTS_RICH if self.p.get('rich_text') else [])
         n = self.r.choice([1, 1, 1, 2, 3])
         return ''.join(self.r.choice(pool) for _ in range(n))
